@@ -465,8 +465,43 @@ class VPCTAd(GPOAd):
     wrapper = "VPCT"
 
 
+class ZoomingAd(Adapter):
+    name = "Zooming"
+
+    def gen_params(self, rnd, T):
+        return {"nu": rnd.choice([1.0, 0.5, 2.0, 4.0]), "rho": rnd.choice([0.9, 0.5, 0.75, 0.95])}
+
+    def construct(self, p, box, pcls):
+        from PyXAB.algos.Zooming import Zooming
+        a = Zooming(nu=p["nu"], rho=p["rho"], domain=box, partition=pcls)
+        a._adelta = Delta()
+        return a
+
+    def init_line(self, p, kind, K, box, calls, algo=None):
+        return f"Zooming.init {kind_str(kind, K)} {box_str(box)} {fbits(p['nu'])} {fbits(p['rho'])} {draws_str(calls)}", "ok"
+
+    @staticmethod
+    def arms(a):
+        return list(a.active_points.keys())
+
+    def pt_str(self, a, parts, pt):
+        for i, arm in enumerate(self.arms(a)):
+            if arm.get_point() is pt:
+                return f"pt {i} {flist(pt)}"
+        return f"pt ? {flist(pt)}"
+
+    def dump(self, a, delta):
+        part = a.partition
+        arms = self.arms(a)
+        astr = [f"{i}:{vid(a.active_points[arm])}:{a.pulled_times[arm]}:{fbits(a.average_rewards[arm])}:{flist(arm.get_point())}"
+                for i, arm in enumerate(arms)]
+        best = "-" if a.best_arm is None else str(arms.index(a.best_arm))
+        return (f"phase={a.phase} next={a.next_end_time} time={a.time} best={best} depth={part.get_depth()} "
+                f"layers={layers_str(part)} nodes={delta.dump(node_strs(part, lambda nd: ''))} arms={a._adelta.dump(astr)}")
+
+
 ADAPTERS = {a.name: a for a in [HOOAd(), HCTAd(), VHCTAd(), SOOAd(), DOOAd(), StoSOOAd(), SequOOLAd(),
-                                POOAd(), GPOAd(), PCTAd(), VPCTAd()]}
+                                POOAd(), GPOAd(), PCTAd(), VPCTAd(), ZoomingAd()]}
 
 
 # ------------------------------------------------------------------ generic case
